@@ -94,7 +94,7 @@ def mkEnv (gr recursive rej : Sexp) (fix : Bool := false) : Option (Beap.Env Nat
   let rejected ← allSome decProg (← rej.list?)
   pure { G := G, W := W, filter := fun p => !rejected.contains p, recursive := ← recursive.bool?, fixEmptied := fix }
 
-/-- `(beap.run grammar recursive rejected script fuel fixEmptied)` (`fixEmptied`: the implementation has the fix C12-F6) →
+/-- `(beap.run grammar recursive rejected script fuel fixEmptied)` (`fixEmptied`: the implementation has the fix C12-F13) →
     `(ok steps costLists banks queues empties deleted spec sorted)`; `sorted` = `Beap.sortedB` of the final
     `_cost_lists[start]`; `spec` = for every yielded program
     `(member cost)` by the specification (`G.gen`, `Beap.costOf`) -/
